@@ -68,7 +68,16 @@ fn build_postfix_expression(
             // get `(` on stack
             Operation::RPar => {
                 while stack.last() != Some(&Operation::LPar) {
-                    postfix_expression.push(stack.pop().unwrap());
+                    match stack.pop() {
+                        Some(operation) => postfix_expression.push(operation),
+                        None => {
+                            return Err(ParsingError::invalid_const_value(
+                                op,
+                                expression,
+                                "unmatched closing parenthesis",
+                            ))
+                        }
+                    }
                 }
                 // pop the `(` from stack
                 stack.pop();
@@ -99,6 +108,13 @@ fn build_postfix_expression(
 
     // push remaining on the stack operators to the postfix expression
     while let Some(element) = stack.pop() {
+        if element == Operation::LPar {
+            return Err(ParsingError::invalid_const_value(
+                op,
+                expression,
+                "unmatched opening parenthesis",
+            ));
+        }
         postfix_expression.push(element);
     }
 
@@ -119,14 +135,26 @@ fn evaluate_postfix_expression(
             Operation::Value(value) => stack.push(*value),
             // if the operation is an operator
             _ => {
-                let right = stack.pop().expect("stack is empty");
-                let left = stack.pop().expect("stack is empty");
+                let (Some(right), Some(left)) = (stack.pop(), stack.pop()) else {
+                    return Err(ParsingError::invalid_const_value(
+                        op,
+                        expression,
+                        &format!("constant expression {} is incorrect", op),
+                    ));
+                };
                 stack.push(compute_statement(op, left, right, operation)?);
             }
         }
     }
 
-    // get the result from the stack
+    // the stack must hold exactly one value: the result
+    if stack.len() > 1 {
+        return Err(ParsingError::invalid_const_value(
+            op,
+            expression,
+            &format!("constant expression {} is incorrect", op),
+        ));
+    }
     stack.pop().ok_or_else(|| {
         ParsingError::invalid_const_value(
             op,
